@@ -40,6 +40,15 @@ def run_case(sc, monitors, res, case, tap=True, counters=(), lateness=None, nont
     for k, v in sim.fates.counts.items():
         res.count("fate_" + k, v)
     res.count("stop_" + str(sim.stopped_reason))
+    if sim.resumed_with_ticket:
+        hs = [e for _t, e in sim.client.events if type(e).__name__ == "HandshakeCompleted"]
+        res.count("runs_resumed_ticket_offered")
+        if hs:
+            res.count("runs_0rtt_accepted" if hs[0].early_data_accepted else "runs_0rtt_rejected_by_server")
+        res.count("zero_rtt_packets_on_wire", sum(1 for p in (sim.tap.packets if sim.tap else []) if p.ptype == "0rtt"))
+    for k, v in sim.frontend.items():
+        if v:
+            res.count("frontend_" + k, v)
     res.count("obs_timer_spins", sim.timer_spins)
     if sim.stopped_reason == "step-cap":
         res.inconclusive.append("step cap hit (seed %s)" % sc["seed"])
